@@ -37,7 +37,7 @@ BOUNDS = {
     "quick": "structural: N<=8 symbolic real inputs, max_buckets in {1,2}, check period in {1,2}, min window in {0,2}, "
              "min sub-window in {1,2}; epsilon-cut lemma: all arguments symbolic (unbounded), both bounds; ADWINAccuracy: N<=9 "
              "label pairs (all outcome sequences), symbolic constructor arguments",
-    "thorough": "structural N<=12, max_buckets<=3, period in {1,2,4}; ADWINAccuracy N<=11",
+    "thorough": "structural N<=11 (13 for max_buckets=1), max_buckets<=3, period in {1,2,4}; ADWINAccuracy N<=11",
 }
 OUTSIDE = ("streams longer than N; IEEE rounding of the incremental variance (exact reals); the natural logarithm and square "
            "root in the epsilon-cut are uninterpreted (identical on both sides)")
@@ -269,7 +269,7 @@ def jobs(tier):
                     if q and sst == 2 and (wst == 2 or nst == 2):
                         continue
                     out.append(Job(f"struct-mb{mb}-nst{nst}-wst{wst}-sst{sst}", "checks.c03:body_structural",
-                                   {"N": 8 if q else 12,
+                                   {"N": 8 if q else 11,
                                     "cfg": {"max_buckets": mb, "new_sample_thresh": nst, "window_size_thresh": wst,
                                             "subwindow_size_thresh": sst}},
                                    expect=("cut",), opts={"validate": 1}))
